@@ -22,4 +22,32 @@ Proof.
   apply (H4 Hn). exact Hx.
 Qed.
 
+(* "No later release event makes a key held again": events that are all
+   releases can only shrink the set of keys held on the virtual keyboard *)
+Lemma apply_evs_releases_incl evs : forall H,
+  forallb (fun e => negb (is_pressed e)) evs = true ->
+  forall x, In x (apply_evs H evs) -> In x H.
+Proof.
+  induction evs as [|e evs IH]; intros H Hall x Hx; [exact Hx|].
+  cbn [forallb] in Hall. apply andb_true_iff in Hall. destruct Hall as [He Hall].
+  unfold apply_evs in Hx. cbn [fold_left] in Hx. fold (apply_evs (apply_ev H e) evs) in Hx.
+  pose proof (IH _ Hall x Hx) as H1.
+  destruct e as [k|k]; [discriminate He|].
+  cbn [apply_ev] in H1. apply In_remove_all in H1. exact (proj1 H1).
+Qed.
+
+(* from ANY history (any reachable state): after a release input or release-all
+   the held set is a subset of the held set before *)
+Lemma release_holds_nothing_new L h i :
+  match i with
+  | IEv (Pressed _) => True
+  | _ => forall x, In x (held_all is_action L (h ++ [i])) -> In x (held_all is_action L h)
+  end.
+Proof.
+  pose proof (release_never_presses is_action L (state_of is_action L h) i) as R.
+  destruct i as [[k|k]|]; [exact I| |]; intros x Hx;
+    unfold held_all in Hx; rewrite out_all_snoc, apply_evs_app in Hx;
+    exact (apply_evs_releases_incl _ _ R x Hx).
+Qed.
+
 End S.
